@@ -40,7 +40,7 @@ fn comp(c: Command, s: (f32, f32, f32)) -> f32 {
         Command::Acceleration(_) => s.2,
     }
 }
-fn show(h: &[Ev]) -> String {
+pub fn show(h: &[Ev]) -> String {
     h.iter()
         .map(|e| match e {
             Ev::P(d, i) => format!("P(+{}ns,state{})", d, i),
@@ -148,7 +148,7 @@ impl Ref {
 }
 
 /// Run a history on the real CommandPID; per event (update result or 0 for set/follow, get).
-fn run_real(init: Command, follow: bool, h: &[Ev], t0: i64) -> Vec<(u32, Obs)> {
+pub fn run_real(init: Command, follow: bool, h: &[Ev], t0: i64) -> Vec<(u32, Obs)> {
     let inp = rc(Scr::<State>::new(Ok(None)));
     let cmdg = rc(Scr::<Command>::new(Ok(Some(Datum::new(Time(0), init)))));
     let mut pid = CommandPID::new(rf(&inp), init, kvals());
@@ -315,7 +315,7 @@ pub fn check_history(init: Command, follow: bool, h: &[Ev], e: &mut Eng, meta: b
     applied
 }
 
-fn syms(follow: bool) -> Vec<Ev> {
+pub fn syms(follow: bool) -> Vec<Ev> {
     let mut v = vec![Ev::P(S / 2, 0), Ev::P(S / 2, 1), Ev::P(2 * S, 0), Ev::P(2 * S, 1), Ev::N(S), Ev::Er(S)];
     for i in 0..6 {
         v.push(Ev::Set(i));
